@@ -247,6 +247,23 @@ def run_case(c):
                 if abs(v - ref) > 1e-12 * max(1.0, abs(ref)):
                     if len(viol) < 8:
                         viol.append(dict(d, mech="gkls:not-paraboloid-outside-balls", x=x.tolist(), calculate=float(v), paraboloid=ref))
+        # points ON the boundary of the box (faces, edges, corners: some coordinates exactly -1 or +1): still points of the box
+        nface = 0
+        for q in range(200 if deep else 60):
+            x = rng.uniform(-1, 1, n)
+            on = rng.random(n) < (0.5 if q % 3 else 1.0)
+            if not on.any():
+                on[int(rng.integers(n))] = True
+            x = np.where(on, np.where(rng.random(n) < 0.5, -1.0, 1.0), x)
+            dd = np.sqrt(((M[1:] - x) ** 2).sum(axis=1))
+            if np.all(dd > rho[1:] * (1 + 1e-9)):
+                v = bench.evaluate(p, x)
+                ref = float(((x - T) ** 2).sum()) + t
+                nface += 1
+                if abs(v - ref) > 1e-12 * max(1.0, abs(ref)):
+                    if len(viol) < 8:
+                        viol.append(dict(d, mech="gkls:not-paraboloid-outside-balls", x=x.tolist(), calculate=float(v), paraboloid=ref, what="point on the boundary of the box"))
+        obs["box_boundary_points"] = obs.get("box_boundary_points", 0) + nface
         obs["paraboloid_points"] = obs.get("paraboloid_points", 0) + npar
         # (3),(4) inside balls and across boundaries
         for i in range(1, 10):
@@ -295,7 +312,7 @@ def EXHAUSTIVE(tier):
 def finalize(obs, tier, stats):
     if obs.get("functions", 0) != 400:
         return "only %d of 400 functions audited" % obs.get("functions", 0), {}
-    for k in ("knuth_check", "paraboloid_points", "interior_points", "boundary_pairs", "reference_values_compared", "live_instances_during_audit", "rebuild_constructions", "earlier_instances_reaudited", "regenerations", "regenerated_basin_values"):
+    for k in ("knuth_check", "box_boundary_points", "paraboloid_points", "interior_points", "boundary_pairs", "reference_values_compared", "live_instances_during_audit", "rebuild_constructions", "earlier_instances_reaudited", "regenerations", "regenerated_basin_values"):
         if not obs.get(k):
             return "%s never observed" % k, {}
     if obs.get("max_constructions_of_one_pair", 0) < 5:
